@@ -174,12 +174,24 @@ func init() {
 			jobs := []Job{{Pkg: "rules", Func: "verifC03aVacuity", Vacuity: true}, {Pkg: "rules", Func: "verifMaskVacuity", Vacuity: true}}
 			maxN, maxL := 3, 10
 			if tier == "thorough" {
-				maxN, maxL = 4, 12
+				maxN, maxL = 3, 12 // four symbolic pattern bytes do not finish within the per-job budget
 			}
 			for n := 1; n <= maxN; n++ {
 				jobs = append(jobs, Job{Pkg: "rules", Func: "verifC03a", Args: []int64{int64(n)}})
 			}
 			nr := curRun.Natives["rules"].(*nativeRules)
+			if tier == "thorough" {
+				// every pattern with URLs up to 10 bytes, every eighth batch of patterns with URLs up to 12 bytes
+				// (the cost per pattern grows about tenfold from 10 to 12 bytes)
+				all := batchJobs("verifMaskRules", len(nr.texts), 8, 10, 3)
+				jobs = append(jobs, all...)
+				for i, j := range batchJobs("verifMaskRules", len(nr.texts), 8, int64(maxL), 3) {
+					if i%8 == 0 {
+						jobs = append(jobs, j)
+					}
+				}
+				return jobs
+			}
 			jobs = append(jobs, batchJobs("verifMaskRules", len(nr.texts), 8, int64(maxL), 3)...)
 			return jobs
 		},
@@ -190,7 +202,7 @@ func init() {
 		MustReach: []string{"c03a.translated", "c03b.rule"},
 		Bounds: map[string]string{
 			"quick":    "(a) pattern of 1..3 symbolic bytes over {a . * ^ | / $ \\}; (b) every mask pattern of 1..2 tokens over 22 tokens (all regexp metacharacters, * ^ |, letters of both cases, digit, % - _ space), each also with a leading || and a trailing /*, with and without $match-case, plus 150 seeded longer patterns: for each, ALL URLs of 0..10 printable-ASCII bytes",
-			"thorough": "(a) 1..4 bytes; (b) 1..2 tokens plus 600 seeded patterns of 3..5 tokens, URLs of 0..12 bytes (4000 patterns with URLs up to 14 bytes did not finish in 90 minutes and are not claimed)",
+			"thorough": "(a) 1..3 bytes (4 bytes exhausted the per-job budget and are not claimed); (b) 1..2 tokens plus 600 seeded patterns of 3..5 tokens: every pattern with URLs of 0..10 bytes and every eighth batch of eight patterns with URLs of 0..12 bytes (all patterns at 12 bytes did not finish in an hour and are not claimed)",
 		},
 		Outside:     []string{"URLs longer than the bound", "non-ASCII bytes", "patterns above the token bound (sampled only)", "regexp.Compile itself: the compiled program is obtained natively and its Pike-VM semantics encoded; the encoding is validated against MatchString on concrete strings each run"},
 		Assumptions: []string{"strings.Replacer modelled for the concrete single-byte table read from the live specialCharReplacer initialiser", "regexp encoding == (*Regexp).MatchString on ASCII (validated on concrete strings each run)", "reference automaton written from the documented mask syntax (rules/regex.go comments and the knowledge-base text)"},
